@@ -11,4 +11,6 @@ MODS=$(python3 -c "import json; print(' '.join(v.get('module','PG.Props.'+k) for
 if [ -n "$MODS" ]; then (cd lean && lake build $MODS 2>&1 | tail -3); fi
 [ -f harness/Cargo.lock ] || cp /repo/Cargo.lock harness/Cargo.lock
 (cd harness && cargo build --release --offline 2>&1 | tail -3)
+# unoptimised build for the deep-input probe of C06 / C13
+(cd harness && cargo build --offline 2>&1 | tail -1)
 echo "setup done"
